@@ -8,7 +8,7 @@ import random
 ID = "C03"
 LEVEL = "fault_enumeration"
 TECHNIQUE = "fault enumeration on a virtual-time simulated network: every loss subset x ACK/RST kind and arrival offset x wrong-MID/wrong-source decoys x transport tunings; arithmetic oracle over wire timestamps and bytes"
-LEVEL_TEXT = "Every cell of the (tuning, lost-transmission subset, acknowledgement kind/offset/decoy) grid for MAX_RETRANSMIT <= 4 is executed against the real MessageManager on virtual time and judged by timestamp/byte arithmetic; larger MAX_RETRANSMIT and server-side CON responses are sampled."
+LEVEL_TEXT = "Every cell of the (tuning, lost-transmission subset, acknowledgement kind/offset/decoy) grid for MAX_RETRANSMIT <= 4 is executed against the real MessageManager on virtual time and judged by timestamp/byte arithmetic; larger MAX_RETRANSMIT and server-side CON responses are sampled; copies refused by the operating system and a Message object sent again while its earlier exchange is still open are run as scenario families."
 LEVEL_NOTE = "Trusted: harness/vloop.py virtual clock, harness/simnet.py wire log, harness/refcodec.py. ACK arrival instants are kept >= 1 ms away from timer instants (both orders are legal at the same instant)."
 RULE = (
     "one case = one CON exchange under one cell (tuning, set of lost transmissions, ack kind in {none, empty ACK+separate response, piggybacked, RST}, "
@@ -16,7 +16,7 @@ RULE = (
     "Non-trivial = at least one retransmission or fault or decoy happened; distinct = distinct cell tuples"
 )
 ASSUMPTIONS = ["datagram latency in the simulation is 1 ms each way", "random.uniform is the source of the initial timeout (seeded per case)"]
-REQUIRED_MONITORS = {"schedule": 200, "bytes_identical": 200, "stop_after_ack": 100, "giveup": 30, "decoy_no_effect": 50, "server_con_response": 20, "refused_copy": 20}
+REQUIRED_MONITORS = {"schedule": 200, "bytes_identical": 200, "stop_after_ack": 100, "giveup": 30, "decoy_no_effect": 50, "server_con_response": 20, "refused_copy": 20, "message_object_reused": 16}
 EXHAUSTIVE = {"grid": "tunings x all loss subsets for MAX_RETRANSMIT<=4 x ack kinds x trigger transmission x delay classes x decoys (split over shards)"}
 
 TUNINGS = [
@@ -407,6 +407,16 @@ def run_shard(shard, rep, only=None):
             if only is not None and only != case:
                 continue
             run_refused_copy_case(tun, k, shard["seed"] * 100003 + 90000 + j * 37 + rp, rep, case)
+    # the application sends the same Message object again while the exchange of its earlier use is still open
+    ru_cases = [(tun, why, when, bw) for tun in TUNINGS[:3] + TUNINGS_SAMPLED[:1] for why in ("given-up", "answered-separately") for when in ("before-first-retx", "after-first-retx") for bw in (False, True)]
+    for j, (tun, why, when, bw) in enumerate(ru_cases):
+        if j % of != idx:
+            continue
+        for rp in range(1 if tier == "quick" else 10):
+            case = ["reuse", j, rp]
+            if only is not None and only != case:
+                continue
+            run_reuse_case(tun, why, when, bw, shard["seed"] * 100003 + 70000 + j * 41 + rp, rep, case)
     # server-side CON responses
     srv_cases = []
     for tun in [(2.0, 1.5, 4), (0.5, 3.0, 1), (0.7, 2.0, 3)]:
@@ -425,6 +435,108 @@ def run_shard(shard, rep, only=None):
         if only is not None and only != case:
             continue
         run_server_case(tun, lost, ack_at, custom, shard["seed"] * 100003 + 70000 + j, rep, case)
+
+
+def run_reuse_case(tun, why, when, blockwise, seed, rep, case):
+    """A polling application sends one Message object again: its first use is over for the application (given up
+    after a while, or answered by a separate response whose request was never acknowledged), but the message layer's
+    exchange for it is still open and retransmitting. Every copy on the wire under one message ID is byte-identical,
+    the second use and an unrelated fresh request to the same peer each end with a response or a network error, and
+    nothing is left behind."""
+    from harness import scenario, simnet, refcodec as rc
+    import asyncio
+    import aiocoap
+    from aiocoap import error
+
+    at, arf, mr = tun
+    S = simnet.addr("10.0.0.1", 5683)
+    obs = {}
+    mtw = at * arf * (2 ** (mr + 1) - 1)
+
+    async def main(loop):
+        net = simnet.SimNet(loop)
+        seen = []
+
+        def on_msg(peer, src, m, raw):
+            if m is None or not rc.is_request(m.code):
+                return
+            seen.append(m.mid)
+            if why == "answered-separately" and len(seen) == 1:
+                # the response overtakes the acknowledgement, which never comes
+                peer.send(src, rc.Msg(rc.NON, rc.c(2, 5), peer.next_mid(), m.token, (), b"first"))
+
+        simnet.RawPeer(net, "10.0.0.1", 5683, on_msg)
+        cli = await simnet.make_context(net, "10.0.0.2", 40001, None, server=False)
+        msg = aiocoap.Message(code=aiocoap.GET, uri="coap://10.0.0.1/poll", transport_tuning=mk_tuning(at, arf, mr))
+        wait = at * 0.5 if when == "before-first-retx" else at * arf * 1.5
+        r1 = cli.request(msg, handle_blockwise=blockwise)
+        out = {}
+        if why == "given-up":
+            try:
+                await asyncio.wait_for(r1.response, wait)
+                out["first"] = "response"
+            except asyncio.TimeoutError:
+                out["first"] = "given-up"
+            except Exception as e:
+                out["first"] = repr(e)
+        else:
+            try:
+                await r1.response
+                out["first"] = "response"
+            except Exception as e:
+                out["first"] = repr(e)
+            await asyncio.sleep(wait)
+        t_again = loop.time()
+        r2 = cli.request(msg, handle_blockwise=blockwise)
+        r3 = cli.request(aiocoap.Message(code=aiocoap.GET, uri="coap://10.0.0.1/other", transport_tuning=mk_tuning(at, arf, mr)), handle_blockwise=blockwise)
+        done = {}
+        for name, r_ in (("second", r2), ("fresh", r3)):
+            r_.response.add_done_callback(lambda f, name=name: done.setdefault(name, (loop.time(), "cancelled" if f.cancelled() else f.exception() or "response")))
+        await asyncio.sleep(3 * mtw + 10)
+        mm = cli.request_interfaces[0].token_interface
+        obs.update(net=net, out=out, done=dict(done), t_again=t_again, open_exchanges=len(mm._active_exchanges or {}), backlogs=len(mm._backlogs or {}))
+        await cli.shutdown()
+        return True
+
+    res = scenario.run(main, seed)
+    if not res.ok:
+        if res.horizon:
+            rep.inconc("virtual horizon exceeded in reuse case")
+        else:
+            rep.violation("message-reuse/scenario-failed", "scenario did not complete: hang=%r error=%r" % (res.hang, res.error), {"tuning": tun, "why": why, "when": when}, case)
+        return
+    net = obs["net"]
+    log = [e for e in net.log if e.kind == "send" and e.dst == S and e.msg is not None and rc.is_request(e.msg.code)]
+    w = lambda **kw: dict(tuning=tun, why=why, when=when, blockwise=blockwise, first=obs["out"].get("first"), done={k: (round(v[0], 6), repr(v[1])) for k, v in obs["done"].items()}, wire=[(round(e.t, 6), e.msg.mid, e.msg.token.hex(), rc.opt1(e.msg, 11)) for e in log], **kw)
+    if obs["out"].get("first") != ("given-up" if why == "given-up" else "response"):
+        # (with MAX_RETRANSMIT 0 the first use times out by itself before the application gives up: not this scenario)
+        rep.count("reuse_case_first_use_ended_by_itself")
+        return
+    rep.monitor("message_object_reused")
+    by_mid = {}
+    for e in log:
+        by_mid.setdefault(e.msg.mid, []).append(e)
+    for mid, es in by_mid.items():
+        rep.monitor("bytes_identical")
+        if len({e.data for e in es}) != 1:
+            rep.violation("message-reuse/copies-differ", "copies transmitted under one message ID are not byte-identical", w(mid=mid), case)
+            return
+        if len(es) > 1 + mr:
+            rep.violation("message-reuse/too-many-copies", "more than 1+MAX_RETRANSMIT copies of one message", w(mid=mid), case)
+            return
+    for name in ("second", "fresh"):
+        d = obs["done"].get(name)
+        if d is None:
+            rep.violation("message-reuse/%s-request-hangs" % name, "%s neither completed nor failed within three times MAX_TRANSMIT_WAIT" % ("the second use of the Message object" if name == "second" else "an unrelated fresh request to the same peer, submitted after the second use,"), w(), case)
+            return
+        if d[1] != "response" and not isinstance(d[1], error.NetworkError):
+            rep.violation("message-reuse/%s-request-wrong-error" % name, "the request ended with something other than a response or a network error", w(), case)
+            return
+    if obs["open_exchanges"] or obs["backlogs"]:
+        rep.violation("message-reuse/exchange-left-open", "exchange state for the peer survived all requests to it", w(open_exchanges=obs["open_exchanges"], backlogs=obs["backlogs"]), case)
+    if res.loop_exceptions:
+        rep.violation("message-reuse/loop-exception/" + str(res.loop_exceptions[0].get("exc_type")), "an exception reached the event loop", w(loop=res.loop_exceptions[:2]), case)
+    rep.case(("reuse", tun, why, when, blockwise), nontrivial=True)
 
 
 def run_refused_copy_case(tun, k, seed, rep, case):
